@@ -19,17 +19,25 @@ def split_traces(rep, tier, seed):
         n = (1, 2, 3)[i % 3] if i % 5 == 0 else rng.randrange(1, 24)
         d = rng.randrange(1, 4)
         r = np.random.default_rng(rng.randrange(2**31))
-        X = r.normal(size=(n, d))
+        kind = ("normal", "binary", "zeros", "lattice", "normal")[i % 5 if i % 11 else (i // 11) % 5]
+        if kind == "binary":          # sparse 0/1 rows: small sets made only of origin samples are likely
+            X = (r.random(size=(n, d)) < 0.3).astype(float)
+        elif kind == "zeros":
+            X = np.zeros((n, d))
+        elif kind == "lattice":
+            X = r.integers(-1, 2, size=(n, d)).astype(float)
+        else:
+            X = r.normal(size=(n, d))
         if i % 3 == 0 and n > 3:      # duplicates: identity only up to the bag
             X[rng.randrange(n)] = X[rng.randrange(n)]
-        Y = r.integers(0, 3, size=n)
+        Y = r.integers(0, 3, size=n) if i % 13 else np.zeros(n, dtype=int)
         den = rng.choice([1, 2, 4, 8, 16])
         num = (0, den)[i % 2] if i % 6 == 0 else rng.randrange(0, den + 1)              # percentage 0 and 1 are endpoints
         seedv = 0 if i % 7 == 0 else (1 if i % 7 == 1 else rng.randrange(0, 1000))     # seed 0 is an endpoint (falsy)
         I = H.Interner()
         rows = lambda A: [I("r", a) for a in A]
         pairs = lambda A, B: [I("p", a, int(b)) for a, b in zip(A, B)]
-        meta = {"n": n, "num": num, "den": den, "seed": seedv, "X": X.tolist(), "Y": Y.tolist()}
+        meta = {"n": n, "kind": kind, "num": num, "den": den, "seed": seedv, "X": X.tolist(), "Y": Y.tolist()}
         try:
             X1, X2, Y1, Y2, I1, I2 = sp.split_with_index(X.copy(), Y.copy(), num / den, seedv)
             a1, a2, b1, b2 = sp.split(X.copy(), Y.copy(), num / den, seedv)
